@@ -374,9 +374,11 @@ def ascii_only(b):
     return all(c < 128 for c in b) if isinstance(b, bytes) else all(ord(c) < 128 for c in b)
 
 
-def shared_writes(out):
+def shared_writes(out, call_relative=False):
     """Descriptions of heap writes, during the call, to objects that existed before it (registries, algorithm
-    models, class tables, keys, key sets).  Only the symbolic evaluator observes writes; natively: []."""
+    models, class tables; with call_relative=True also every object the harness built before the call -- keys, key
+    sets, registry instances -- except the containers passed as the call's own arguments).
+    Only the symbolic evaluator observes writes; natively: []."""
     return []
 
 
